@@ -42,6 +42,10 @@ func (*vTagMatcher) Match(cx *layer4.Connection) (bool, error) {
 	if _, err := io.ReadFull(cx, b); err != nil {
 		return false, err
 	}
+	if b[0] == 'T' {
+		// remember who this connection is while the matching buffer is certainly intact
+		cx.SetVar("verif_c08_id", int(b[1])<<8|int(b[2]))
+	}
 	return b[0] == 'T', nil
 }
 
@@ -56,6 +60,7 @@ func (*vSink) CaddyModule() caddy.ModuleInfo {
 type vTeeRec struct {
 	mu   sync.Mutex
 	got  [][]byte
+	ids  []int
 	wg   sync.WaitGroup
 	wait time.Duration
 	n    int
@@ -79,32 +84,26 @@ func vTeeStream(id, n int) []byte {
 	return b
 }
 
-// returns the id a stream claims and the index of the first byte that does not belong to it (-1: all fine)
-func vTeeCheck(b []byte) (id int, bad int) {
-	if len(b) < 5 {
-		return -1, 0
-	}
-	id = int(b[1])<<8 | int(b[2])
-	w := vTeeStream(id, len(b))
-	n := int(b[3])<<8 | int(b[4])
-	if n >= 5 && n <= 1<<15 {
-		w[3], w[4] = b[3], b[4]
-	}
+// index of the first byte of b that is not the byte connection id sent at that position (-1: all fine)
+func vTeeCheck(id int, b []byte) int {
+	w := vTeeStream(id, vTee.n)
 	for i := range b {
-		if b[i] != w[i] {
-			return id, i
+		if i >= len(w) || b[i] != w[i] {
+			return i
 		}
 	}
-	return id, -1
+	return -1
 }
 
 func (*vSink) Handle(cx *layer4.Connection, _ layer4.Handler) error {
 	defer vTee.wg.Done()
+	own, _ := cx.GetVar("verif_c08_id").(int)
 	time.Sleep(vTee.wait)
 	hdr := make([]byte, 5)
 	if _, err := io.ReadFull(cx, hdr); err != nil {
 		vTee.mu.Lock()
 		vTee.got = append(vTee.got, nil)
+		vTee.ids = append(vTee.ids, own)
 		vTee.mu.Unlock()
 		return nil
 	}
@@ -117,17 +116,24 @@ func (*vSink) Handle(cx *layer4.Connection, _ layer4.Handler) error {
 	k, _ := io.ReadFull(cx, rest)
 	vTee.mu.Lock()
 	vTee.got = append(vTee.got, append(hdr, rest[:k]...))
+	vTee.ids = append(vTee.ids, own)
 	vTee.mu.Unlock()
 	return nil
 }
 
-// vQuick is the main chain's terminal handler: returns at once without reading.
+// vQuick is the main chain's terminal handler: reads its copy of the stream and returns. With the
+// prefetched bytes buffered in the Connection it gets them without touching the tee's pipe, so it
+// returns long before the branch wakes up; if tee fed everything through the pipe instead, the
+// two would simply proceed in lock-step (and the engine would still terminate).
 type vQuick struct{}
 
 func (*vQuick) CaddyModule() caddy.ModuleInfo {
 	return caddy.ModuleInfo{ID: "layer4.handlers.verif_c08_quick", New: func() caddy.Module { return new(vQuick) }}
 }
-func (*vQuick) Handle(*layer4.Connection, layer4.Handler) error { return nil }
+func (*vQuick) Handle(cx *layer4.Connection, _ layer4.Handler) error {
+	_, _ = io.ReadFull(cx, make([]byte, vTee.n))
+	return nil
+}
 
 func init() {
 	caddy.RegisterModule(&vTagMatcher{})
@@ -175,6 +181,7 @@ func vTeeRound(t *testing.T, out *vOut, procs, nconn int, wait time.Duration, se
 
 	vTee.mu.Lock()
 	vTee.got = nil
+	vTee.ids = nil
 	vTee.wait = wait
 	rng := vNewRng(seed*1000003 + int64(round))
 	vTee.n = 16 + rng.Intn(400)
@@ -215,12 +222,13 @@ func vTeeRound(t *testing.T, out *vOut, procs, nconn int, wait time.Duration, se
 
 	vTee.mu.Lock()
 	defer vTee.mu.Unlock()
-	for _, g := range vTee.got {
+	for gi, g := range vTee.got {
 		if g == nil {
 			continue
 		}
 		checked++
-		id, at := vTeeCheck(g)
+		id := vTee.ids[gi]
+		at := vTeeCheck(id, g)
 		if at >= 0 {
 			bad++
 			if bad <= 3 {
@@ -230,7 +238,7 @@ func vTeeRound(t *testing.T, out *vOut, procs, nconn int, wait time.Duration, se
 				}
 				out.Fail("C08:pool:cross-talk-tee",
 					fmt.Sprintf("tee branch of connection %d read a byte that is not its own at offset %d (the main chain had returned, Server.handle had put the matching buffer back and another connection reused it)", id, at),
-					map[string]any{"gomaxprocs": procs, "connections": nconn, "branch_delay_ms": wait.Milliseconds(), "claimed_id": id, "offset": at,
+					map[string]any{"gomaxprocs": procs, "connections": nconn, "branch_delay_ms": wait.Milliseconds(), "connection": id, "offset": at,
 						"bytes_at_offset": fmt.Sprintf("%x", g[at:hi]), "expected": fmt.Sprintf("%x", vTeeStream(id, len(g))[at:hi])})
 			}
 		}
